@@ -288,8 +288,8 @@ def _jsonable(x):
     return x
 
 
-def run_case(col, case, quota=None):
-    """Evaluates one abstract case. `quota`: dict used to record at most one failure per known-defect selector."""
+def run_case(col, case):
+    """Evaluates one abstract case."""
     try:
         expected = model.expand(case)
     except model.Grey as g:
@@ -346,13 +346,8 @@ def run_case(col, case, quota=None):
     if first:
         why += '; first discrepancy: %s at %s: %s' % (first[0], first[1], canon_short(first[2]))
     col.outcome('FAIL:%s' % sig)
-    if kinds and quota is not None:
-        key = '+'.join(kinds)
-        col.count('failing_cases_%s' % key.replace('-', '_').replace('+', '_and_'))
-        if quota.get((key, outcome_level)):
-            col.count('failing_cases_not_recorded_individually')
-            return
-        quota[(key, outcome_level)] = True
+    if kinds:
+        col.count('failing_cases_%s' % '+'.join(kinds).replace('-', '_').replace('+', '_and_'))
     col.fail(dict(case), why, {'level': level, 'error': err, 'diffs': _jsonable(diffs), 'raw': raw,
                                'explained_by': kinds}, sig=sig)
 
@@ -383,9 +378,9 @@ RULE = ('Abstract workflows (components, stages, typed consumer->producer edges)
         'A case is non-trivial when at least one component consumes from the replicated region (so a reference must '
         'be rewritten); distinct = distinct abstract case. Cases the statement does not decide are not judged: '
         'regions with different replica counts that meet, an aggregating component that also requests replicas, a '
-        'literal component name equal to <replicated name><digits>. Failing cases that have exactly the shape of '
-        'one of this module\'s known-defect selectors are recorded individually once per (selector kind, outcome level, '
-        'work chunk; 8 chunks hold all cases that can trigger them) and are all counted in the failing_cases_* counters.')
+        'literal component name equal to <replicated name><digits>. Every failing case is recorded; those whose whole '
+        'discrepancy has the shape of one of this module\'s known-defect selectors are also counted per kind in the '
+        'failing_cases_* counters.')
 ASSUMPTIONS = [
     'observation = WorkflowGraph.graphFromFlowIR(doc, manifest, primitive=False): node ids, edges, per node the raw '
     'references and the resolved command line, variables.replica; strings are parsed with an independent parser of the '
@@ -399,7 +394,6 @@ ASSUMPTIONS = [
     'component names are limited to the stated alphabets; <=4 components, <=2 stages, N<=3; methods ref copy link '
     'output; no DoWhile documents, no comma-joined `ref/path,` form',
 ]
-N_TRIGGER_CHUNKS = 8
 
 
 def _prepare(thorough):
@@ -431,14 +425,10 @@ def _with_replica_args(case):
 
 
 def worker(col, item, tier, seed):
-    use_quota, items = item
-    quota = {} if use_quota else None
-    n = 0
-    for it in items:
+    for n, it in enumerate(item):
         case = _with_replica_args(gen.case_from_item(it))
-        run_case(col, case, quota)
-        n += 1
-        if n == 1:
+        run_case(col, case)
+        if n == 0:
             col.sample(case)
 
 
@@ -449,19 +439,16 @@ def run(ctx):
         ctx.outcome('not-judged(grey): %s' % reason, n)
     ctx.count('cases_with_known_defect_trigger', len(trig))
     ctx.count('cases_without_trigger', len(plain))
-    work = []
-    step = max(1, -(-len(trig) // N_TRIGGER_CHUNKS))
-    for i in range(0, len(trig), step):
-        work.append((True, trig[i:i + step]))
+    # cases that can trigger a known-shaped failure cost three loads each: small chunks, scheduled first
+    work = [trig[i:i + 60] for i in range(0, len(trig), 60)]
     step = 400 if ctx.thorough else 150
-    for i in range(0, len(plain), step):
-        work.append((False, plain[i:i + step]))
+    work += [plain[i:i + step] for i in range(0, len(plain), step)]
     ctx.pmap('verif.props.c03', 'worker', work)
 
 
 def replay(ctx, case):
     case = dict(case)
-    run_case(ctx, case, None)
+    run_case(ctx, case)
 
 
 # ------------------------------------------------------------------------------------------------ known findings
